@@ -57,7 +57,9 @@ UnderFileInvs == {Inv("mkdir", "", FALSE, "stdin", dr, {}, "reg/sub", FALSE, FAL
 DollarInvs == {Inv("mkdir", "", FALSE, "stdin", dr, {".x"}, "s$HOME", FALSE, FALSE, FALSE, "wf", "pipe") : dr \in B}
               \cup {Inv("verify", "", FALSE, "stdin", FALSE, {}, "s$HOME", st, FALSE, FALSE, "wf", "pipe") : st \in B}
               \cup {Inv(s, "", FALSE, "dollar", FALSE, {}, "", FALSE, FALSE, FALSE, d, "pipe") : s \in {"output", "mkdir", "verify"}, d \in {"wf", "malformed"}}
-BaseInvs == DollarInvs \cup DevStdinInvs \cup UnderFileInvs \cup EmptyArgInvs \cup NullInvs \cup BigInvs \cup BrokenInvs \cup OutputInvs \cup MkdirInvs \cup VerifyInvs \cup TemplateInvs \cup DotInvs \cup TimeoutInvs \cup WatchInvs \cup UsageInvs \cup InfoInvs
+\* a verification whose report lists exactly 256 paths
+ManyInvs == {Inv("verify", "", FALSE, "stdin", FALSE, {}, t, st, FALSE, FALSE, "many", "pipe") : st \in B, t \in {"", "sub"}}
+BaseInvs == ManyInvs \cup DollarInvs \cup DevStdinInvs \cup UnderFileInvs \cup EmptyArgInvs \cup NullInvs \cup BigInvs \cup BrokenInvs \cup OutputInvs \cup MkdirInvs \cup VerifyInvs \cup TemplateInvs \cup DotInvs \cup TimeoutInvs \cup WatchInvs \cup UsageInvs \cup InfoInvs
 \* every invocation in its three spellings, with the argv words the real binary is given
 Spelled(S, sps) == {[ [i EXCEPT !.sp = sp] EXCEPT !.argv = Argv([i EXCEPT !.sp = sp])] : i \in S, sp \in sps}
 AllInvs == Spelled(BaseInvs, {"long", "short", "eq"})
